@@ -12,9 +12,12 @@ from .ops import OPS, NP_UFUNC
 DT_FLOAT = ["f8", "f4", "f2"]
 _DTYPES = {"f8": np.float64, "f4": np.float32, "f2": np.float16, "i8": np.int64, "i4": np.int32, "b1": np.bool_}
 
-UNARY = ["neg", "pos", "square", "abs", "exp", "log", "sin", "cos", "tanh", "sqrt"]
+UNARY_CORE = ["neg", "pos", "square", "abs", "exp", "log", "sin", "cos", "tanh", "sqrt"]
+UNARY_MORE = ["arccos", "arcsin", "arctan", "arccosh", "arcsinh", "arctanh", "cbrt", "cosh", "sinh", "tan", "exp2", "expm1", "log10", "log2", "log1p", "reciprocal",
+              "cot", "sec", "csc", "coth", "sech", "csch", "arccot", "arccoth", "arccsc", "arcsec", "arccsch"]
+UNARY = UNARY_CORE * 3 + UNARY_MORE  # the core names stay three times as likely as the long tail
 UNARY_EXACT = ["neg", "pos", "square"]
-BINARY = ["add", "sub", "mul", "div", "maximum", "minimum"]
+BINARY = ["add", "sub", "mul", "div", "maximum", "minimum"] * 3 + ["arctan2", "logaddexp", "logaddexp2"]
 BINARY_EXACT = ["add", "sub", "mul"]
 REDUCE = ["sum", "mean", "prod", "max", "min", "var", "std"]
 REDUCE_EXACT = ["sum"]
